@@ -117,6 +117,20 @@ class C05(Property):
                 runs += [random_bracketing(rng, idx) for _ in range(3)]
             yield {'kind': 'runs', 'et': et, 'events': events, 'runs': runs,
                    'repr': rng.choice(['plain', 'plain', 'element', 'parsed'])}
+        for _ in range(20 if tier == 'quick' else 400):
+            # a stream with a version property in which one logical event has two instances of one version that differ
+            recs = []
+            for name in rng.sample(['a', 'b', 'c'], rng.randint(1, 2)):
+                for v in rng.sample([1, 2, 3, 4], rng.randint(1, 3)):
+                    recs.append({'id': name, 'tag': 't%d' % v, 'v': v})
+            for v in rng.sample([1, 2, 3], rng.randint(0, 2)):
+                recs.append({'id': 'z', 'tag': 'z%d' % v, 'v': v})
+            rng.shuffle(recs)
+            k = rng.randint(0, len(recs))
+            recs = recs[:k] + [{'id': 'z', 'tag': 'first', 'v': 5}] + recs[k:]
+            j = rng.randint(k + 1, len(recs))
+            recs = recs[:j] + [{'id': 'z', 'tag': 'second', 'v': 5}] + recs[j:]
+            yield {'kind': 'stream-conflict', 'records': recs}
         m = 40 if tier == 'quick' else 800
         for i in range(m):
             et = c04.gen_event_type(rng, with_version=False)
@@ -143,6 +157,66 @@ class C05(Property):
                 case = {'kind': 'stream', 'et': et, 'events': events, 'upgrade': {'prop': 'hx', 'at': k}}
             yield case
 
+    # ---- a merge conflict in mid stream ----------------------------------------------------
+    @staticmethod
+    def conflict_ontology():
+        from edxml.ontology import Ontology, DataType
+        o = Ontology()
+        o.create_object_type('ot.string')
+        o.create_object_type('ot.seq', data_type=DataType.sequence().get())
+        o.create_event_source('/s/')
+        t = o.create_event_type('ev')
+        t.create_property('id', 'ot.string').make_hashed()
+        t.create_property('tag', 'ot.string').make_optional().make_multivalued().merge_add()
+        t.create_property('v', 'ot.seq').merge_max()
+        t.set_version_property_name('v')
+        return o, t
+
+    def observe_conflict(self, case):
+        """edxml-merge on a stream in which two instances of one logical event share a version and differ: the merger raises;
+        what it had accepted until then is written when it is closed (as the command line tool does)."""
+        import edxml
+        from edxml.event import EDXMLEvent
+        from edxml.error import EDXMLMergeConflictError
+        from edxml.cli.edxml_merge import EDXMLEventMerger
+        o, t = self.conflict_ontology()
+        events = [EDXMLEvent({'id': [r['id']], 'tag': [r['tag']], 'v': [str(r['v'])]}, 'ev', '/s/') for r in case['records']]
+        data = edxml.EventCollection(events, o).to_edxml()
+        old = sys.stdout
+        out = _Stdout()
+        sys.stdout = out
+        outcome = 'accepted'
+        try:
+            try:
+                with EDXMLEventMerger() as m:
+                    m.parse(io.BytesIO(data))
+            except EDXMLMergeConflictError:
+                outcome = 'conflict'
+            except Exception as ex:
+                outcome = 'raised:' + type(ex).__name__
+        finally:
+            sys.stdout = old
+        try:
+            coll = edxml.EventCollection.from_edxml(out.buffer.getvalue())
+            written = sorted([e.get_any('id'), sorted(e['tag']), sorted(e['v'])] for e in coll)
+        except Exception as ex:
+            written = 'unreadable:' + type(ex).__name__
+        return {'outcome': outcome, 'written': written}
+
+    @staticmethod
+    def conflict_expected(case):
+        """Per logical event, the merge of the instances that arrived before the conflicting one."""
+        want, seen = {}, {}
+        for r in case['records']:
+            key = (r['id'], r['v'])
+            if key in seen and seen[key] != r['tag']:
+                break       # the merger stops here
+            seen[key] = r['tag']
+            g = want.setdefault(r['id'], {'tags': set(), 'v': 0})
+            g['tags'].add(r['tag'])
+            g['v'] = max(g['v'], r['v'])
+        return sorted([k, sorted(g['tags']), [str(g['v'])]] for k, g in want.items())
+
     # ---- implementation ------------------------------------------------------------------
     def run_stream(self, o, data, k):
         from edxml.cli.edxml_merge import EDXMLEventMerger, BufferingEDXMLEventMerger
@@ -165,6 +239,8 @@ class C05(Property):
     def observe(self, case):
         import edxml
         from edxml.error import EDXMLMergeConflictError
+        if case['kind'] == 'stream-conflict':
+            return self.observe_conflict(case)
         o, t = c04.build_ontology(case['et'])
         if case['kind'] == 'runs':
             events = [gen.build_event(e, case['repr']) for e in case['events']]
@@ -209,6 +285,8 @@ class C05(Property):
 
     # ---- model ---------------------------------------------------------------------------
     def requests(self, case):
+        if case['kind'] == 'stream-conflict':
+            return []
         specs = c04.specs_of(case['et'])
         vp = case['et']['vp']
         if case['kind'] == 'runs':
@@ -224,6 +302,10 @@ class C05(Property):
         return reqs
 
     def predict(self, case, replies):
+        if case['kind'] == 'stream-conflict':
+            # the stream merger folds the instances of a logical event one by one (C05: same as merging at once) and stops
+            # at the conflicting instance; closing it writes what it holds
+            return {'outcome': 'conflict', 'written': self.conflict_expected(case)}
         if case['kind'] == 'runs':
             return {'outs': [r if 'err' in r else {'ok': c04.model_view(r['ok'])} for r in replies]}
         n = len(replies) // 2
@@ -239,6 +321,14 @@ class C05(Property):
 
     # ---- oracle --------------------------------------------------------------------------
     def oracle(self, case, obs):
+        if case['kind'] == 'stream-conflict':
+            if obs['outcome'] != 'conflict':
+                return 'edxml-merge on a stream with two differing instances of one event version: %s' % obs['outcome']
+            want = self.conflict_expected(case)
+            if obs['written'] != want:
+                return ('edxml-merge, closed after a merge conflict, wrote %s; the instances it had accepted until then merge to %s'
+                        % (json.dumps(obs['written']), json.dumps(want)))
+            return None
         et = case['et']
         if case['kind'] == 'stream':
             import edxml
@@ -289,6 +379,8 @@ class C05(Property):
 
     def neighbours(self, case, rng):
         out = []
+        if case['kind'] == 'stream-conflict':
+            return out
         for _ in range(60):
             c = json.loads(json.dumps(case))
             if c['kind'] == 'runs':
@@ -299,6 +391,8 @@ class C05(Property):
         return out
 
     def reductions(self, case):
+        if case['kind'] == 'stream-conflict':
+            return
         if case['kind'] == 'runs':
             for i in range(len(case['runs'])):
                 if len(case['runs']) > 2:
@@ -320,11 +414,15 @@ class C05(Property):
                 yield c
 
     def nontrivial(self, case):
+        if case['kind'] == 'stream-conflict':
+            return json.dumps(case, sort_keys=True)
         if len(case['events']) < 2:
             return None
         return json.dumps(case, sort_keys=True)
 
     def sample_view(self, case):
+        if case['kind'] == 'stream-conflict':
+            return case
         v = {'kind': case['kind'], 'strategies': [(p['name'], p['fam'], p['merge']) for p in case['et']['props']],
              'vp': case['et']['vp'], 'events': case['events']}
         if case['kind'] == 'runs':
